@@ -73,7 +73,22 @@ CacheSound(t) ==
         /\ t.nodes[i].st = "W" => \A j \in 1..Len(t.nodes[i].w) :
                 LET wj == t.nodes[i].w[j] IN Len(wj.p) = t.dim /\ (~wj.ok \/ \A c \in ClosedRegion(t, i) : SatTol(c, wj.p, t.nodes[i].q))
         /\ t.nodes[i].st = "X" => ~HasInterior(ClosedRegion(t, i), t.dim)
+\* direct variant: eliminate ; remove_axes ; eliminate on the tree itself
+CheckSliceDirect(e) ==
+    IF e.res = "panic" THEN V("C17", e, FALSE, "infeasible_elimination / remove_axes panicked", "slice-direct/panic")
+    ELSE LET t == ToT(e.tree)  m == ToT(e.mid)  s == ToT(e.post)  kd == Len(KeepIdx(e.mask))
+             total == \A i \in Occ(t) : ~t.nodes[i].leaf => \A j \in 1..Len(t.nodes[i].ch) : t.nodes[i].ch[j] # NONE IN
+         /\ V("C17", e, Sane(m) /\ m.dim = kd /\ PwlEqUpToThin(P0(m), SlicePieces(P0(t), e.mask, e.ref), kd),
+              "remove_axes after an elimination is not the restriction of the tree to the slice at 0", "slice-direct/law")
+         /\ V("C05", e, ~Sane(m) \/ CacheSound(m), "after remove_axes a cached witness / infeasible mark of the earlier elimination is wrong for the new input space", "slice-direct/cache")
+         /\ V("C03", e, ~Sane(m) \/ ~Sane(s) \/ PwlEqUpToThin(P0(s), P0(m), kd), "infeasible_elimination after remove_axes changed the function", "slice-direct/prune")
+         /\ V("C05", e, ~Sane(s) \/ CacheSound(s), "unsound cache after the second elimination", "slice-direct/cache2")
+         /\ V("C06", e, ~Sane(s) \/ ~total \/ \A i \in Occ(s) \ {s.root} : Feas(ClosedRegion(s, i), kd),
+              "a node with an empty path region is left by the elimination that follows remove_axes", "slice-direct/empty-left")
+         /\ V("C06", e, e.post2 = e.post, "a further elimination changed the tree again", "slice-direct/idem")
+
 CheckSlice(e) ==
+    IF "direct" \in DOMAIN e /\ e.direct THEN CheckSliceDirect(e) ELSE
     IF e.res = "panic" THEN V("C17", e, FALSE, "from_slice / compose / remove_axes panicked", "slice/panic")
     ELSE LET t == ToT(e.tree)  s == ToT(e.post)  kd == Len(KeepIdx(e.mask)) IN
          /\ V("C17", e, Sane(s) /\ s.dim = kd, "sliced tree is malformed or has the wrong input dimension", "slice/shape")
